@@ -42,7 +42,7 @@ func clauseWordsFor(p *Prog, nodeType string) ([]string, bool, *InterpModel) {
 			if e.KV["raises"] == "T" || e.KV["dirty"] == "T" {
 				skip = true
 			}
-			if e.Op == "flagtest" || e.Op == "index" || (e.Op == "typetest" && e.Args[0] == "e") {
+			if e.Op == "flagtest" || e.Op == "index" || (e.Op == "typetest" && e.Args[0] == "e") || trivialNilTest(e) {
 				continue
 			}
 			parts = append(parts, e.String())
@@ -127,7 +127,7 @@ func checkC11(p *Prog, l *Ledger) {
 	// the array built-ins work on the argument values of their own call: the call clause hands each callee a list
 	// built during this evaluation from the evaluated arguments, in order (rule shared with C04)
 	if cs := getClauses(p); cs.account(l) {
-		l.As(map[string]string{"C04/S3-call-protocol": "C11/S0-arguments-delivered"}, func() { checkCallProtocol(cs, l) })
+		l.As(map[string]string{"C04/S3-call-protocol": "C11/S0-arguments-delivered", "C04/S3-who-invokes": "C11/S0-arguments-delivered/who-invokes"}, func() { checkCallProtocol(cs, l) })
 	}
 	ARR, IDX, VAL := q("ev[e.Array].val"), q("toInt64(ev[e.Index].val)#0"), q("ev[e.Value].val")
 	pre := q("eval(e.Array, env, isRepl)→sig=0 ; eval(e.Index, env, isRepl)→sig=0 ; ")
